@@ -72,6 +72,7 @@ type Exec struct {
 	guards      map[*Cell]*guardRec
 	guardedMaps map[*MapObj]*guardRec
 	luaLI       *luaInterp // the interpreter whose tables Go-side gopher-lua constructors create (luaboundary.go)
+	pools       map[*Cell][]Value // sync.Pool contents on this path (luaboundary.go)
 	globals   map[*ssa.Global]*Cell
 	ginit     map[*ssa.Global]bool
 	nondets   []nondetRec
